@@ -43,7 +43,8 @@ class Run:
 
 
 class Drv:
-    def __init__(self, d, triple, cfg):
+    def __init__(self, d, triple, cfg, path_tools=False):
+        self.path_tools = path_tools
         self.dir = d
         self.triple = triple
         self.cfg = cfg          # parsed config.h
@@ -60,7 +61,8 @@ class Drv:
                 "compilecmd": [(self.exe_nocc if nocc else self.exe) + "-qbe"],
                 "codegencmd": c["codegencmd"], "assemblecmd": c["assemblecmd"], "linkcmd": c["linkcmd"]}
 
-    def run(self, argv, script=None, files=(), timeout=20.0, nocc=False, rundir=None, keep=False, scan=False):
+    def run(self, argv, script=None, files=(), timeout=20.0, nocc=False, rundir=None, keep=False, scan=False,
+            missing=()):
         """Run the driver on `argv` in a fresh private cwd containing `files` (relative paths,
         created with their own name as content).  Returns a Run."""
         if rundir is None:
@@ -85,6 +87,20 @@ class Drv:
         serr = os.path.join(rundir, "stderr")
         env = {"PATH": "/nonexistent", "STUB_LOG": log, "ASAN_OPTIONS": "detect_leaks=0:abort_on_error=0",
                "UBSAN_OPTIONS": "print_stacktrace=1", "LC_ALL": "C"}
+        exe = self.exe_nocc if nocc else self.exe
+        if self.path_tools:
+            # per-run tool directory found through PATH (posix_spawnp); `missing` roles are absent,
+            # and a stub can remove a tool later (action D<name>) to make a later spawn fail
+            bindir = os.path.join(rundir, "bin")
+            os.makedirs(bindir)
+            stub = os.path.join(self.dir, "bin", "cproc-qbe")
+            for role in ROLES:
+                if role not in missing:
+                    os.link(stub, os.path.join(bindir, role))
+            exe = os.path.join(bindir, "cproc")
+            os.link(self.exe, exe)
+            env["PATH"] = bindir
+            env["STUB_BIN"] = bindir
         if script:
             env["STUB_SCRIPT"] = script
         r = Run()
@@ -96,7 +112,7 @@ class Drv:
             r.stdout_id = (st.st_dev, st.st_ino)
             st = os.fstat(fi.fileno())
             r.stdin_id = (st.st_dev, st.st_ino)
-            p = subprocess.Popen([self.exe_nocc if nocc else self.exe] + list(argv), cwd=cwd, env=env,
+            p = subprocess.Popen([exe] + list(argv), cwd=cwd, env=env,
                                  stdin=fi, stdout=fo, stderr=fe, start_new_session=True)
             r.pid = p.pid
             # blocking wait + watchdog (no polling): on timeout freeze the picture with SIGSTOP,
@@ -186,7 +202,7 @@ def build_stub(ck):
     return exe
 
 
-def build(ck, triple, missing=(), tag=None, extra=()):
+def build(ck, triple, missing=(), tag=None, extra=(), path_tools=False):
     """Build the stubbed driver for `triple`.  `missing` = roles among cpp/qbe/as/ld whose
     configured path does not exist (spawn failure); cproc-qbe is made missing per run with
     Drv.run(nocc=True).  Raises CompileError when driver.c no longer builds this way."""
@@ -204,7 +220,7 @@ def build(ck, triple, missing=(), tag=None, extra=()):
         os.unlink(os.path.join(d, "config.h"))
     tools = {}
     for role in ("cpp", "qbe", "as", "ld"):
-        tools[role] = os.path.join(d, "missing" if role in missing else "bin", role)
+        tools[role] = role if path_tools else os.path.join(d, "missing" if role in missing else "bin", role)
     conf = os.path.join(common.REPO, "configure")
     r = common.sh(["sh", conf, "--host=" + HOST, "--target=" + triple,
                    "--with-gcc-libdir=/usr/lib/gcc/%s/12" % triple,
@@ -225,4 +241,4 @@ def build(ck, triple, missing=(), tag=None, extra=()):
     shutil.copy(exe, os.path.join(d, "nocc", "cproc"))
     for role in ("cpp", "qbe", "as", "ld", "cproc-qbe"):
         os.link(stub, os.path.join(d, "bin", role))
-    return Drv(d, triple, cfg)
+    return Drv(d, triple, cfg, path_tools)
